@@ -51,4 +51,9 @@ TEXT = {
   "note": "Trusts the harness model (structural equality that never equates values of different types; clamp semantics of slice as pinned by the suite). Collections <= ~60 elements.",
   "technique": "reference-model monitor (association list / sequence) over random operation histories, with re-checks of every live value",
  },
+ "C13": {
+  "level": "Exploration: every eligible dictionary word (166) is run on untagged and tagged copies of the same arguments (tags at any depth, tags on tags, formatting tag) and must behave the same modulo tags; results may only carry tags that were moved from an input; the tag words are checked against an attached-map model.",
+  "note": "Metamorphic oracle (no reference semantics needed); three arguments per word from 13 value classes, so words of arity > 3 only see their type-error paths.",
+  "technique": "metamorphic twin-execution monitor (tagged vs untagged arguments) over the whole dictionary + model-based monitor for the tag words",
+ },
 }
